@@ -45,6 +45,28 @@ FAULT_EXPR = {
     "stopiter": ("next(iter([]))", "StopIteration"),
 }
 
+# statements whose OWN operation raises (no faulting sub-expression): kind -> (source lines, index of the faulting line)
+OP_FAULTS = {
+    "augdiv": (["pv_x = 1; pv_x /= 0"], 0),
+    "augstr": (['pv_x = "s"; pv_x += 5'], 0),
+    "augsub": (['pv_d = {"k": 1}; pv_d["k"] //= 0'], 0),
+    "augattr": (['pv_o = PvErr("x"); pv_o.args += 5'], 0),
+    "augml": (["pv_x = 1", "pv_x //= (", "        0)"], 1),
+    "augmlstr": (['pv_x = "s"', "pv_x += [", "        1, 2]"], 1),
+    "substore": (["pv_l = []; pv_l[3] = 1"], 0),
+    "substoreml": (["pv_l = []", "pv_l[", "        3] = 1"], 1),
+    "attrstore": (["pv_o = None; pv_o.pv_attr = 1"], 0),
+    "delsub": (['pv_d = {}; del pv_d["k"]'], 0),
+    "foriter": (["for pv_i in 5:", "    pv_v = 1"], 0),
+    "raisenon": (["raise 5"], 0),
+    "ifcmp": (['if 1 < "s":', "    pv_v = 1"], 0),
+    "whilecmp": (['while "s" > 1:', "    break"], 0),
+    "retneg": (['return -"s"'], 0),
+    "annop": (['pv_v: int = 1 + "s"'], 0),
+    "walrusop": (['(pv_w := [1][7])'], 0),
+    "assertop": (['assert 1 < "s", "m"'], 0),
+}
+
 RAISE_KINDS = [
     "Exception", "ValueError", "TypeError", "KeyError", "IndexError", "ZeroDivisionError", "AttributeError", "NameError",
     "RuntimeError", "NotImplementedError", "OSError", "FileNotFoundError", "PermissionError", "TimeoutError", "ConnectionError",
@@ -209,9 +231,13 @@ def render_stmt(w, s, cx, ind):
     if t == "s":
         form = s["form"]
         w.w(pad + {"expr": "", "assign": "pv_v = ", "ret": "return ", "assert": "assert [", "subassign": 'pv_d = {}; pv_d["k"] = ',
-                   "tupassign": "pv_a, pv_b = "}[form])
+                   "tupassign": "pv_a, pv_b = ", "aug": "pv_acc = []; pv_acc += [", "ann": "pv_v: object = ",
+                   "walrus": "(pv_w := ", "attrassign": 'pv_o = PvErr("x"); pv_o.pv_val = ', "starassign": "pv_a, *pv_b = [",
+                   "assertmsg": "assert [1], ", "delsub": "pv_d = {0: 0}; del pv_d[[", "ifexpstmt": "pv_v = 1 if [",
+                   }[form])
         render_expr(w, s["e"], cx, ind)
-        w.w({"assert": "]", "tupassign": ", 0"}.get(form, ""))
+        w.w({"assert": "]", "tupassign": ", 0", "aug": "]", "walrus": ")", "starassign": ", 0]", "delsub": ", 0][1]]",
+             "ifexpstmt": "] else 2"}.get(form, ""))
         w.nl()
     elif t == "raise":
         txt = f'raise {s["exc"]}("{s.get("msg", "m")}")'
@@ -222,6 +248,12 @@ def render_stmt(w, s, cx, ind):
     elif t == "assertfail":
         w.w(pad + 'assert not [1], "pv assert"')
         w.nl()
+    elif t == "op":
+        lines, idx = OP_FAULTS[s["k"]]
+        for i, ln in enumerate(lines):
+            if i == idx:
+                s["ln"] = w.ln
+            w.line(pad + ln)
     elif t == "pass":
         w.w(pad + f"pv_v = {s.get('v', 7)}")
         w.nl()
@@ -352,7 +384,7 @@ def fault_line(stmt):
         return None
     def find_raise(x):
         if isinstance(x, dict):
-            if x.get("t") in ("raise", "assertfail"):
+            if x.get("t") in ("raise", "assertfail", "op"):
                 return x.get("ln")
             for v in x.values():
                 r = find_raise(v)
@@ -536,7 +568,7 @@ def q_stmt(s, env):
         return f"({ctor} {q_node(s['ln'])} [{q_expr(s['e'], env)}])"
     if t == "raise":
         return f"(SRaise {q_node(s['ln'])} {'true' if s.get('cause') else 'false'})"
-    if t == "assertfail":
+    if t in ("assertfail", "op"):
         return f"(SRaise {q_node(s['ln'])} false)"
     if t == "pass":
         return f"(SExpr {q_node(s['ln'])} [])"
